@@ -7,6 +7,6 @@ from . import VERIF
 
 def generic(c, rf, model):
     mods = ['contracts.' + os.path.basename(f)[:-3]
-            for f in sorted(glob.glob(os.path.join(VERIF, 'contracts', 'C[0-9][0-9]*.py')))]
+            for f in sorted(glob.glob(os.path.join(VERIF, 'contracts', '[CT][0-9][0-9]*.py')))]
     return ('from pyvc import replaylib\n'
             'sys.exit(replaylib.run_generic(%r, %r, OBLIGATION, MODEL))\n' % (mods, c.qname))
